@@ -13,6 +13,9 @@ def main():
     if a.pid in CORE:
         import core
         mod = core
+    elif a.pid in ("C06", "C16"):
+        import c06
+        mod = c06
     elif a.pid == "C08":
         import c08
         mod = c08
